@@ -320,6 +320,12 @@ func (c *coordinator) handleActionSwap(action balancer.Action) {
 		panic("unexpected action type")
 	}
 	defer ac.Done()
+	if _, exist := c.configResource.Node(ac.To.GetIdentifier()); !exist {
+		// The action was proposed against an older cluster config: never move a
+		// replica onto a server that is not part of the cluster anymore
+		c.Warn("Skip swap action, the target server was removed from the cluster", slog.Any("swap-action", ac))
+		return
+	}
 	c.Info("Applying swap action", slog.Any("swap-action", ac))
 
 	c.RLock()
